@@ -75,3 +75,60 @@ func VerifC09_TwoSignalEnding() {
 	zz.Assert(len(f.env.Cleanups) == 1 && f.g.VerifPeek(f.chid).Status == datatransfer.Completed, "no second cleanup after termination")
 	zz.Reach("done")
 }
+
+// VerifC09_EventWhileCleaningUp: "exactly once" also when something happens while the cleanup is
+// still running. The model group is in its queue mode (go-statemachine handles one event per step
+// and queues what arrives while an entry function runs): a live channel ends (cancel, error or
+// complete), and while the environment is releasing the transport ONE arbitrary further event is
+// sent to the channel (a block hook graphsync had in flight, a disconnect, a message of the
+// counterparty, a second ending, ...). Oracle: the transport is released and the peer un-protected
+// exactly once per ENTERING of Cancelling / Failing / Completing (ghost counter of the model:
+// applied transitions whose destination is one of the three; a second ending arriving meanwhile is
+// a second entering), and a channel left in a cleanup status settles without further input.
+// CompleteCleanupOnRestart is excluded: it is the explicit request to run the cleanup of a channel
+// found in a cleanup status again.
+//verif:opts viol=40
+func VerifC09_EventWhileCleaningUp() {
+	f := verifFixtureWith(1, 0)
+	pre := f.pre
+	zz.Assume(!IsChannelTerminated(pre.Status) && !IsChannelCleaningUp(pre.Status))
+	f.g.QueueWhileBusy = true
+	ending := []datatransfer.EventCode{datatransfer.Cancel, datatransfer.Error, datatransfer.Complete}[zz.Choice("ending", 3)]
+	late := zz.Choice("late", VerifNumEvents)
+	zz.Assume(datatransfer.EventCode(late) != datatransfer.CleanupComplete) // internal: only the cleanup triggers it
+	zz.Assume(datatransfer.EventCode(late) != datatransfer.CompleteCleanupOnRestart)
+	names := []string{"Open@cleanup", "Accept@cleanup", "Restart@cleanup", "DataReceived@cleanup", "DataSent@cleanup", "Cancel@cleanup", "Error@cleanup", "CleanupComplete@cleanup", "NewVoucher@cleanup", "NewVoucherResult@cleanup", "PauseInitiator@cleanup", "ResumeInitiator@cleanup", "PauseResponder@cleanup", "ResumeResponder@cleanup", "FinishTransfer@cleanup", "ResponderCompletes@cleanup", "ResponderBeginsFinalization@cleanup", "BeginFinalizing@cleanup", "Disconnected@cleanup", "Complete@cleanup", "CompleteCleanupOnRestart@cleanup", "DataQueued@cleanup", "DataQueuedProgress@cleanup", "DataSentProgress@cleanup", "DataReceivedProgress@cleanup", "RequestTimedOut@cleanup", "SendDataError@cleanup", "ReceiveDataError@cleanup", "TransferRequestQueued@cleanup", "RequestCancelled@cleanup", "Opened@cleanup", "SetDataLimit@cleanup", "SetRequiresFinalization@cleanup", "DataLimitExceeded@cleanup", "TransferInitiated@cleanup", "SendMessageError@cleanup"}
+	zz.Assert(len(names) == VerifNumEvents, "name table covers every event code")
+	fired := false
+	f.env.CleanupHook = func() {
+		if fired {
+			return
+		}
+		fired = true
+		zz.Note("event arriving while the cleanup runs:")
+		zz.Note(names[late])
+		_ = VerifSendArbitrary(f.g, f.chid, datatransfer.EventCode(late), "late")
+	}
+	_ = VerifSendArbitrary(f.g, f.chid, ending, "end")
+	post := f.g.VerifPeek(f.chid)
+	zz.Assert(fired, "every ending is taken from every live status and starts the cleanup")
+	entered := f.g.CleanupEntries
+	zz.Assert(entered >= 1, "the hook only runs inside a cleanup")
+	zz.Assert(!IsChannelCleaningUp(post.Status), "without further input the channel settles")
+	if entered == 1 && IsChannelTerminated(post.Status) {
+		switch ending {
+		case datatransfer.Cancel:
+			zz.Assert(post.Status == datatransfer.Cancelled, "cancel settles in Cancelled")
+		case datatransfer.Error:
+			zz.Assert(post.Status == datatransfer.Failed, "error settles in Failed")
+		case datatransfer.Complete:
+			zz.Assert(post.Status == datatransfer.Completed, "complete settles in Completed")
+		}
+	}
+	zz.Assert(len(f.env.Cleanups) == entered, "the transport resources are released exactly once per entering of a cleanup status, whatever arrives while the cleanup runs")
+	zz.Assert(len(f.env.Unprotects) == entered, "the peer connection is un-protected exactly once per entering of a cleanup status, whatever arrives while the cleanup runs")
+	if entered > 1 {
+		zz.Reach("a second ending arrived while the first cleanup ran")
+	}
+	zz.Reach("settled after an event during the cleanup")
+}
